@@ -102,7 +102,7 @@ Proof. intros A a b H. induction H; cbn; lia. Qed.
 
 (* ---------------------------------------------------------------- case split of one step *)
 Ltac step_split cap T30 s e :=
-  destruct e as [|ms| |r|dt| |]; cbn [step];
+  destruct e as [|ms| |r|dt| | |]; cbn [step];
   [ destruct (opened s) eqn:Eo; cbn [negb];
     [ destruct ((length (inflight s) <? cap) && match waiters s with [] => true | _ :: _ => false end) eqn:Ec | ]
   | destruct (opened s) eqn:Eo; cbn [negb];
@@ -110,6 +110,7 @@ Ltac step_split cap T30 s e :=
   |
   | destruct (in_fl r (inflight s)) eqn:E1; [| destruct (in_ws r (waiters s)) eqn:E2]
   | destruct (inflight s) as [|[r0 wt] rest] eqn:Ef; [| destruct (opened s && (wt + T30 <=? clock s + dt)%N) eqn:Ec]
+  | destruct (opened s) eqn:Eo
   | destruct (opened s) eqn:Eo
   | destruct (opened s) eqn:Eo ]; cbn [fst snd].
 
@@ -196,7 +197,25 @@ Proof.
   right. rewrite !in_app_iff. right. right. left. reflexivity.
 Qed.
 
-Lemma peer_close_closes : forall s e, e = PeerClose \/ e = PeerEof -> opened s = true ->
+Lemma peer_close_closes : forall s e, e = PeerClose \/ e = PeerEof \/ e = LocalClose -> opened s = true ->
+    opened (fst (step s e)) = false /\ In (OClosed (clock s)) (snd (step s e)) /\
+    (forall r wt, In (r, wt) (inflight s) -> In (ODone r Disconnected (clock s)) (snd (step s e))) /\
+    (forall w, In w (waiters s) -> In (ODone w Disconnected (clock s)) (snd (step s e))) /\
+    writes (snd (step s e)) = [].
+Proof.
+  assert (G : forall s, opened s = true ->
+    opened (closed_st s (clock s)) = false /\ In (OClosed (clock s)) (flush_out (clock s) (inflight s) (waiters s)) /\
+    (forall r wt, In (r, wt) (inflight s) -> In (ODone r Disconnected (clock s)) (flush_out (clock s) (inflight s) (waiters s))) /\
+    (forall w, In w (waiters s) -> In (ODone w Disconnected (clock s)) (flush_out (clock s) (inflight s) (waiters s))) /\
+    writes (flush_out (clock s) (inflight s) (waiters s)) = []).
+  { intros s _. split; [reflexivity|]. split; [unfold flush_out; rewrite !in_app_iff; right; right; left; reflexivity|].
+    split; [intros r wt H; unfold flush_out; apply in_app_iff; left; apply in_map_iff; exists (r, wt); split; [reflexivity|assumption]|].
+    split; [|apply writes_flush].
+    intros w H. unfold flush_out. apply in_app_iff. right. apply in_app_iff. left. apply in_map_iff. exists w. split; [reflexivity|assumption]. }
+  intros s e [-> | [-> | ->]] Ho; cbn [step]; rewrite Ho; cbn [fst snd]; apply G; assumption.
+Qed.
+
+Lemma peer_close_closes_old : forall s e, e = PeerClose \/ e = PeerEof -> opened s = true ->
     opened (fst (step s e)) = false /\ In (OClosed (clock s)) (snd (step s e)).
 Proof.
   intros s e [-> | ->] Ho; cbn [step]; rewrite Ho; cbn; (split; [reflexivity|]);
@@ -389,6 +408,7 @@ Proof.
     + exists (if (t0 =? wt)%N then TimedOut else Disconnected), (wt + T30)%N. split.
       * right. apply in_app_iff. left. apply in_map_iff. exists (q, t0). split; [reflexivity|assumption].
       * specialize (Hhd _ Hin). unfold le_wt in Hhd. cbn in Hhd. lia.
+  - right. exists Disconnected, (clock s). split; [|lia]. eapply in_flush_fl. exact Hin.
   - right. exists Disconnected, (clock s). split; [|lia]. eapply in_flush_fl. exact Hin.
   - right. exists Disconnected, (clock s). split; [|lia]. eapply in_flush_fl. exact Hin.
 Qed.
